@@ -50,5 +50,9 @@ class FileProxy(io.TextIOBase):
     def flush(self) -> None:
         buffer = self.__buffer
         if buffer:
-            self.__console.print("".join(buffer))
+            line = "".join(buffer)
             del buffer[:]
+            console = self.__console
+            with console:
+                output = self.__ansi_decoder.decode_line(line)
+                console.print(output, markup=False, emoji=False, highlight=False)
